@@ -15,16 +15,30 @@ def gen(run, name, nodes, clients, msgs, ids, depth, simulate=None, qos=(0, 1, 2
                                simulate=simulate, depth=(depth * 6) if simulate else None)
 
 
-def scenario(h, nodes, dupall=False):
+def scenario(h, nodes, dupall=False, dynamic=False):
+    """dynamic: the subscriptions are made AFTER every topic has been published once from every publishing node (so that whatever
+    a node remembers about a topic stems from a time without subscribers), and at the end one remote subscriber unsubscribes
+    and the topic is published once more: destinations follow what the publishing node knows NOW."""
     ops = []
+    subs = []
     # one subscriber session per node, subscribed to the topics that node hosts
     for n in nodes:
         fs = [{"f": ["t", m], "q": 1} for m in sorted(HOSTS) if n in HOSTS[m]]
-        ops.append({"op": "connect", "c": 10 + n, "n": n, "client": "sub%d" % n, "ka": 600})
+        subs.append({"op": "connect", "c": 10 + n, "n": n, "client": "sub%d" % n, "ka": 600})
         if fs:
-            ops.append({"op": "sub", "c": 10 + n, "id": 1, "fs": fs})
-    for c in sorted({o["c"] for o in h if o.get("c")}):
-        ops.append({"op": "connect", "c": PUBCONN[c], "n": PUBNODE[c], "client": "pub-" + c, "ka": 600, "auto": "none"})
+            subs.append({"op": "sub", "c": 10 + n, "id": 1, "fs": fs})
+    pubs = []
+    pubconns = sorted({o["c"] for o in h if o.get("c")})
+    for c in pubconns:
+        pubs.append({"op": "connect", "c": PUBCONN[c], "n": PUBNODE[c], "client": "pub-" + c, "ka": 600, "auto": "none"})
+    if dynamic:
+        ops += pubs
+        for c in pubconns:
+            for m in sorted(HOSTS):
+                ops.append({"op": "pub", "c": PUBCONN[c], "t": ["t", m], "p": "warm-%s-%s" % (c, m), "q": 0, "id": 0})
+        ops += subs
+    else:
+        ops += subs + pubs
     down = set()
     used = set()
     for o in h:
@@ -52,5 +66,10 @@ def scenario(h, nodes, dupall=False):
                 for f in nodes:
                     if f != o["d"]:
                         ops.append({"op": "failrpc", "from": f, "to": o["d"], "on": on})
+    if dynamic and pubconns and not down:
+        # node 2's subscriber leaves topic m2 (hosted on node 2 only); a publish from node 1 afterwards has no destination
+        if 2 in nodes and "c1" in pubconns:
+            ops.append({"op": "unsub", "c": 12, "id": 7, "fs": [{"f": ["t", "m2"], "q": 0}]})
+            ops.append({"op": "pub", "c": PUBCONN["c1"], "t": ["t", "m2"], "p": "after-unsub", "q": 1, "id": 9})
     ops.append({"op": "quiesce"})
     return {"nodes": nodes, "ops": ops}
